@@ -38,7 +38,7 @@ def get_class(spec, cache=True):
                        {"cutter": cutter, "signature": tuple(spec["sig"])})
         elif kind == "custom":
             text = spec["structure"]
-            cls = type(str("X_%s_%s" % (spec["role"], spec["enzyme"])), (base,),
+            cls = type(str(spec.get("name") or "X_%s_%s" % (spec["role"], spec["enzyme"])), (base,),
                        {"cutter": cutter, "structure": classmethod(lambda c, _t=text: _t)})
         else:
             raise ValueError(kind)
